@@ -693,9 +693,9 @@ func Run(c *core.Ctx) {
 			c.Sample("gate", fmt.Sprintf("%+v", gc))
 		}
 	}
-	nd := c.Pick(320, 20000)
+	nd := c.Pick(1500, 20000)
 	if c.Race {
-		nd = c.Pick(96, 4000)
+		nd = c.Pick(400, 4000)
 	}
 	for i := 0; i < nd; i++ {
 		if !c.Take("dep", i) {
@@ -703,9 +703,9 @@ func Run(c *core.Ctx) {
 		}
 		runDep(c, i)
 	}
-	n := c.Pick(1600, 120000)
+	n := c.Pick(6000, 120000)
 	if c.Race {
-		n = c.Pick(400, 20000)
+		n = c.Pick(1500, 20000)
 	}
 	for i := 0; i < n; i++ {
 		if !c.Take("noise", i) {
